@@ -663,6 +663,12 @@ func (obj *DenseInt64MatrixJointIterator) Ok() bool {
          !(obj.s2 == nil || obj.s2.GetInt64() == int64(0))
 }
 func (obj *DenseInt64MatrixJointIterator) Next() {
+  // skip positions where all operands are zero; stop when all
+  // iterators are exhausted
+  for obj.next() && !obj.Ok() {
+  }
+}
+func (obj *DenseInt64MatrixJointIterator) next() bool {
   ok1 := obj.it1.Ok()
   ok2 := obj.it2.Ok()
   obj.s1.ptr = nil
@@ -690,6 +696,7 @@ func (obj *DenseInt64MatrixJointIterator) Next() {
   } else {
     obj.s2 = ConstInt64(0.0)
   }
+  return ok1 || ok2
 }
 func (obj *DenseInt64MatrixJointIterator) Get() (Scalar, ConstScalar) {
   if obj.s1.ptr == nil {
